@@ -599,6 +599,8 @@ def main(argv):
                     results[o["name"]] = s
                 # second pass: counterexamples for failed obligations
                 failed = [o for o in kani_obls if results.get(o["name"], {}).get("fails")]
+                if os.environ.get("VERIF_NO_PLAYBACK") == "1":
+                    failed = []
                 seen_desc = set()
                 n_pb = 0
                 for o in failed:
